@@ -1,5 +1,143 @@
 import Cellml.Basic.Sexp
-/-! Channel C12 of the model driver (stub: not built yet). -/
+import Cellml.C12.Expr
+import Cellml.C12.Window
+import Cellml.C12.Piecewise
+import Cellml.C12.Detect
+import Cellml.C12.Fix
+import Cellml.C12.Traverse
+
+/-! Channel C12:
+    `(C12 (delta d) (rev b) (eqs (name rhs)…) (order name…) (exclude name…) (probe (name v…)…))`
+      → `((unsupported name…) (eqs (name changed (wins (lo hi)…) tree)…) (probe (name (v dec…)…)…))`.
+    `eqs` is `Model.equations` (in order), `order` the sorted graph. In the reply `eqs` is `Model.equations` after the
+    call; `wins` are the ranges of the generated piecewises (outermost first); `tree` the new right-hand side; for each
+    probe voltage the list `dec…` holds, for every generated piecewise met while evaluating the tree at that voltage
+    (arguments left to right; inside a range: the function at the lower bound, then at the upper bound), `out` or
+    `(in t)` with `t` the interpolation coefficient. -/
 namespace C12
-def handle (_args : List Sexp) : Sexp := .atom "not-implemented"
+open Sexp Expr
+
+partial def parseExpr : Sexp → Option Expr
+  | .atom "V" => some .volt
+  | .list [.atom "num", q] => .num <$> rat? q
+  | .list [.atom "var", n] => .var <$> atomOf? n
+  | .list (.atom "add" :: as) => .add <$> as.mapM parseExpr
+  | .list (.atom "mul" :: as) => .mul <$> as.mapM parseExpr
+  | .list [.atom "pow", b, n] => do
+      let b' ← parseExpr b
+      let n' ← int? n
+      pure (.pow b' n')
+  | .list [.atom "exp", a] => .exp <$> parseExpr a
+  | .list [.atom "pw", lo, hi, f] => do
+      let l ← rat? lo
+      let h ← rat? hi
+      let f' ← parseExpr f
+      pure (.pw l h f')
+  | .list (.atom "fn" :: n :: as) => do
+      let n' ← atomOf? n
+      let as' ← as.mapM parseExpr
+      pure (.fn n' as')
+  | _ => none
+
+mutual
+def toSexp : Expr → Sexp
+  | .num q => .list [.atom "num", ofRat q]
+  | .volt => .atom "V"
+  | .var n => .list [.atom "var", .str n]
+  | .add as => .list (.atom "add" :: toSexpL as)
+  | .mul as => .list (.atom "mul" :: toSexpL as)
+  | .pow b n => .list [.atom "pow", toSexp b, ofInt n]
+  | .exp a => .list [.atom "exp", toSexp a]
+  | .pw lo hi f => .list [.atom "pw", ofRat lo, ofRat hi, toSexp f]
+  | .fn n as => .list (.atom "fn" :: .str n :: toSexpL as)
+def toSexpL : List Expr → List Sexp
+  | [] => []
+  | a :: as => toSexp a :: toSexpL as
+end
+
+mutual
+/-- the ranges of the generated piecewises, outermost first, arguments left to right -/
+def wins : Expr → List Sexp
+  | .num _ | .volt | .var _ => []
+  | .add as | .mul as | .fn _ as => winsL as
+  | .pow b _ => wins b
+  | .exp a => wins a
+  | .pw lo hi f => .list [ofRat lo, ofRat hi] :: wins f
+def winsL : List Expr → List Sexp
+  | [] => []
+  | a :: as => wins a ++ winsL as
+end
+
+mutual
+/-- the decisions taken while evaluating the tree at voltage `v` -/
+def decs (v : Rat) : Expr → List Sexp
+  | .num _ | .volt | .var _ => []
+  | .add as | .mul as | .fn _ as => decsL v as
+  | .pow b _ => decs v b
+  | .exp a => decs v a
+  | .pw lo hi f =>
+      if lo ≤ v ∧ v ≤ hi then .list [.atom "in", ofRat (coeff v lo hi)] :: (decs lo f ++ decs hi f)
+      else .atom "out" :: decs v f
+def decsL (v : Rat) : List Expr → List Sexp
+  | [] => []
+  | a :: as => decs v a ++ decsL v as
+end
+
+mutual
+/-- some product inside the expression is outside the fragment on which `_get_singularity` is modelled -/
+def outside (δ : Rat) : Expr → Bool
+  | .num _ | .volt | .var _ => false
+  | .add as | .fn _ as => outsideL δ as
+  | .mul as => (anyExp as && (detect? δ false as).isNone) || outsideL δ as
+  | .pow b _ => outside δ b
+  | .exp a => outside δ a
+  | .pw _ _ f => outside δ f
+def outsideL (δ : Rat) : List Expr → Bool
+  | [] => false
+  | a :: as => outside δ a || outsideL δ as
+end
+
+def parseEqn : Sexp → Option Eqn
+  | .list [n, r] => do
+      let n' ← atomOf? n
+      let r' ← parseExpr r
+      pure ⟨n', r'⟩
+  | _ => none
+
+def findEq (eqs : List Eqn) (n : String) : Option Eqn := eqs.find? (fun e => e.lhs == n)
+
+def handle (args : List Sexp) : Sexp :=
+  match args with
+  | [.list [.atom "delta", d], .list [.atom "rev", .atom rv], .list (.atom "eqs" :: es), .list (.atom "order" :: os),
+     .list (.atom "exclude" :: xs), .list (.atom "probe" :: ps)] =>
+      match rat? d, es.mapM parseEqn, os.mapM atomOf?, xs.mapM atomOf? with
+      | some δ, some eqs, some order, some excl =>
+          let ordered := order.filterMap (findEq eqs)
+          let fix := removeSing (detect δ (rv == "true"))
+          let st := traverse fix excl ordered eqs
+          -- the right-hand sides the detector saw: replay the traversal's substitution for the support check
+          let unsup := (ordered.filter (fun e => outside δ (subst (traverse fix excl (ordered.takeWhile (fun e' => e'.lhs != e.lhs)) eqs).env e.rhs))).map (fun e => Sexp.str e.lhs)
+          let changed (n : String) : Bool :=
+            match findEq eqs n, findEq st.eqs n with
+            | some a, some b => Sexp.toString (toSexp a.rhs) != Sexp.toString (toSexp b.rhs)
+            | _, _ => true
+          let eqOut := st.eqs.map (fun e =>
+            Sexp.list [.str e.lhs, ofBool (changed e.lhs), .list (.atom "wins" :: wins e.rhs), toSexp e.rhs])
+          let probeOut := ps.map (fun p =>
+            match p with
+            | .list (n :: vs) =>
+                match atomOf? n with
+                | some n' =>
+                    match findEq st.eqs n' with
+                    | some e => Sexp.list (.str n' :: vs.map (fun v =>
+                        match rat? v with
+                        | some q => Sexp.list (v :: decs q e.rhs)
+                        | none => .atom "bad-voltage"))
+                    | none => .list [.str n', .atom "no-such-equation"]
+                | none => .atom "bad-probe"
+            | _ => .atom "bad-probe")
+          .list [.list (.atom "unsupported" :: unsup), .list (.atom "eqs" :: eqOut), .list (.atom "probe" :: probeOut)]
+      | _, _, _, _ => .atom "bad-request"
+  | _ => .atom "bad-request"
+
 end C12
